@@ -9,8 +9,8 @@ CONSTANTS
   MaxBurst = 2
   MaxHold = 0
   MaxSick = 0
-  MaxReset = 2
-  MaxIdle = 0
+  MaxReset = 0
+  MaxIdle = 1
   AllowReset = TRUE
-  Depth = 9
+  Depth = 8
 CHECK_DEADLOCK FALSE
